@@ -22,6 +22,8 @@ structure DState where
   usedIds : List Id := []         -- ids named by any earlier batch
   inserted : List Id := []        -- ids that were written by Insert (so not "only through Update")
   taint : List Id := []           -- ids named twice inside one batch (known-finding probe)
+  window : Bool := false          -- a file merge of the real merger is parked (between `mwhold held` and `mwrelease`)
+  closing : Bool := false         -- `mwrelease done` seen, the parked merge's root is the next merge line
 
 /-! ### printing -/
 
@@ -117,20 +119,39 @@ def firstIdx (ds : List Doc) (s : SegSnap) : Nat :=
   | some i => i
   | none => ds.length
 
-def explainMerge (P : Root) (hist : List Root) (Q : Root) : Option Root :=
+/-- a merge explained: the root the model's `introduceMerge` produces, the segment snapshots the task was planned
+over (as they stood in the earlier root, in task order) -/
+structure Explained where
+  root : Root
+  picked : List SegSnap
+
+def explainMerge (P : Root) (hist : List Root) (Q : Root) : Option Explained :=
   let newSegs := Q.segs.filter (fun s => !P.sids.contains s.sid)
   let (N, newDocs) := match newSegs with
     | [s] => (s.sid, s.docs)
     | _ => (0, [])
   let gone := P.sids.filter (fun s => !Q.sids.contains s)
   let want := showRoot Q
-  let cands : List Root := (P :: hist).flatMap fun r0 =>
+  let cands : List Explained := (P :: hist).flatMap fun r0 =>
     let picked := r0.segs.filter (fun s0 => gone.contains s0.sid ||
       (!P.sids.contains s0.sid && s0.live.any (fun d => newDocs.contains d)))
     let byDocs := picked.mergeSort (fun a b => firstIdx newDocs a ≤ firstIdx newDocs b)
     [false, true].flatMap fun fm =>
-      [introduceMerge P Q.epoch (MergeTask.plan picked N fm), introduceMerge P Q.epoch (MergeTask.plan byDocs N fm)]
-  cands.find? (fun r => showRoot r == want)
+      [⟨introduceMerge P Q.epoch (MergeTask.plan byDocs N fm), byDocs⟩,
+       ⟨introduceMerge P Q.epoch (MergeTask.plan picked N fm), picked⟩]
+  cands.find? (fun c => showRoot c.root == want)
+
+/-- the planner orders a task by live size descending, ties by id (`byLiveSizeDescending`) -/
+def sizeOrder (picked : List SegSnap) : List Nat :=
+  (picked.mergeSort (fun a b => a.liveSize > b.liveSize || (a.liveSize == b.liveSize && a.sid ≤ b.sid))).map (·.sid)
+
+def idOrder (picked : List SegSnap) : List Nat := (picked.map (·.sid)).mergeSort (· ≤ ·)
+
+/-- some document of a merging segment was deleted, or the segment left the root, after the task was planned -/
+def deletedDuring (P : Root) (picked : List SegSnap) : Bool :=
+  picked.any fun s0 => match P.segs.find? (fun s => s.sid == s0.sid) with
+    | some s => s.deleted.any (fun x => !s0.deleted.contains x)
+    | none => true
 
 /-! ### one step -/
 
@@ -199,7 +220,10 @@ def c01step (st : DState) (op : String) (impl : String) : DState × String :=
     match parseRootWords rootws with
     | some q =>
       let explained := explainMerge st.root st.hist q
-      let r' := explained.getD q
+      let r' := (explained.map (·.root)).getD q
+      let inWindow := st.window || st.closing
+      let picked := (explained.map (·.picked)).getD []
+      let fileMerge := !picked.isEmpty && picked.all (·.persisted)
       let newSids := q.sids.filter (fun s => !st.root.sids.contains s)
       let survivorsOk := q.segs.all fun s =>
         match st.root.segs.find? (fun s0 => s0.sid == s.sid) with
@@ -211,9 +235,16 @@ def c01step (st : DState) (op : String) (impl : String) : DState × String :=
         else if !decide q.WF then "bad:assumption-deleted-bitmap-out-of-range"
         else if permDocs q.abs st.spec then "ok"
         else "bad:merge-changed-content expected " ++ showDocs (sortDocs st.spec)
-      (install st r', showRoot r' ++ sep ++ verdict ++ brs [
+      (install { st with closing := false } r', showRoot r' ++ sep ++ verdict ++ brs [
         (explained.isSome, "merge-explained"), (explained.isNone, "merge-adopted"),
-        (newSids.isEmpty, "merge-without-new-segment")])
+        (newSids.isEmpty, "merge-without-new-segment"),
+        (inWindow, "mergewindow:merge-introduced"),
+        (inWindow && fileMerge && deletedDuring st.root picked, "mergewindow:delete-during-file-merge"),
+        (inWindow && fileMerge && sizeOrder picked != idOrder picked, "mergewindow:size-order-differs-from-id-order"),
+        (inWindow && fileMerge && sizeOrder picked != idOrder picked && deletedDuring st.root picked,
+          "mergewindow:delete-during-file-merge-with-size-order-differing"),
+        (inWindow && picked.any (fun s0 => !s0.deleted.isEmpty), "mergewindow:input-with-prior-deletions"),
+        (inWindow && picked.length ≥ 3, "mergewindow:three-or-more-inputs")])
     | none => (st, "bad-op" ++ sep ++ "bad:unparsable-merge")
   | "read" :: k :: _ =>
     match ((k.drop 2).toString).toNat? with
@@ -232,6 +263,12 @@ def c01step (st : DState) (op : String) (impl : String) : DState × String :=
         (st.spec.isEmpty, "empty-index"),
         ((List.range k).any fun i => ((st.spec.filter (fun d => d.id == i + 1)).length ≥ 2), "id-with-several-live-docs")])
     | none => (st, "bad-op" ++ sep ++ "bad:unparsable-read")
+  | ["mwhold", r] =>
+    if r == "held" then ({ st with window := true }, "-" ++ sep ++ "ok" ++ brs [(true, "mergewindow:held")])
+    else (st, "-" ++ sep ++ "na" ++ brs [(true, "mergewindow:skipped")])
+  | ["mwrelease", r] =>
+    if r == "done" then ({ st with window := false, closing := true }, "-" ++ sep ++ "ok")
+    else ({ st with window := false }, "-" ++ sep ++ "na" ++ brs [(true, "mergewindow:skipped")])
   | ["end"] => (st, "closed" ++ sep ++ "ok")
   | "crash" :: _ => (st, "-" ++ sep ++ "bad:writer-process-crashed " ++ impl)
   | kind :: _ => (st, "-" ++ sep ++ "bad:unexpected-" ++ kind)
